@@ -151,6 +151,36 @@ def oracle(ctx, budget=1, replay=None, hints=None):
             continue
         if SS.fingerprint(h.state) != before:
             fails.append(dict(what='filtering a file modified the live plugin state (live: %r; file: %r)' % (live, filel), signature='C20:isolation', case=dict(live=live, file=filel)))
+    # the offline run starts from the live state AS IT WAS WHEN THE PROCESSOR WAS CREATED: the print moves on (modes, position, episode)
+    # between creation and the first line read; the file is filtered as a twin copied at creation time filters it
+    for _ in range(20 * budget):
+        n += 1
+        rng = ctx.rng
+        h = impl.new_handlers([('rect', 'a', _F(10), _F(10), _F(20), _F(20))], ext={'M204': 'merge', 'M117': 'last', 'G4': 'exclude'}, enter=['M117 in'], exit_=['M117 out'])
+        impl.run(h, ['G28', 'G1 X5 Y5 Z0.3 E1 F3000'] + rng.choice([[], ['G1 X15 Y15'], ['G1 X15 Y15', 'M204 S900']]))
+        sp = impl.StreamProcessor(_io.BytesIO(b''), h)
+        twin = impl.GcodeHandlers(copy.deepcopy(h.state), impl.LOG)
+        impl.run(h, rng.sample(['G91', 'G20', 'G1 X40 Y40', 'G1 X15 Y15', 'M204 S100', 'G1 E0.2', '@ExcludeRegion off'][:6], rng.randint(1, 3)))     # the live print goes on
+        filel = rng.sample(['G1 X12 Y12 E2', 'G1 X30 Y30', 'G1 X16 Y16', 'M204 P500', 'M117 file', 'G1 Z1', 'G1 X45 Y5 E3'], rng.randint(3, 6)) + ['G1 X50 Y50']
+        for k, l in enumerate(filel):
+            line = l + '\n'
+            try:
+                want = SS.live_twin_outputs(twin, line)
+                got = sp.process_line(line)
+            except Exception as e:
+                fails.append(dict(what='line %r raised %s: %s' % (line, type(e).__name__, e), signature='C20:exception', case=dict(file=filel[:k + 1])))
+                break
+            if want[0] == 'keep':
+                ok = (got == line)
+            elif want[0] == 'drop':
+                ok = got is None
+            else:
+                parts = SS.split_eol(got, '\n') if isinstance(got, str) else None
+                ok = parts is not None and [semantic(x) for x in parts] == [semantic(x) for x in want[1]]
+            if not ok:
+                fails.append(dict(what='line %r: a twin of the state at creation time gives %r, the stream processor (read after the live print moved on) returned %r' % (line, want, got),
+                                  signature='C20:snapshot', case=dict(file=filel[:k + 1])))
+                break
     # known finding D23: OctoPrint's own command parser only recognises upper-case codes, so a lower-case command is not
     # filtered live, while the offline parser normalises and filters it
     from fractions import Fraction as F
